@@ -85,6 +85,10 @@ def _check_stats(model, st, queries, tag, tol, nv, E):
     mscale = max(1.0, np.abs(want).max())
     if not np.allclose(got_b, want, atol=tol * mscale * 10) or not np.allclose(got_s, want, atol=tol * mscale * 10):
         return tag + ": Mahalanobis distances differ (single %s, batched %s, expected %s)" % (got_s.tolist(), got_b.tolist(), want.tolist())
+    # a query written as a plain Python list (whole numbers as int literals) is the same query
+    got_l = np.array([float(np.asarray(model.mahalanobis_distance([int(v) if float(v).is_integer() else float(v) for v in q]))) for q in qs])
+    if not np.allclose(got_l, want, atol=tol * mscale * 10):
+        return tag + ": Mahalanobis distance of a query given as a Python list differs (%s, expected %s)" % (got_l.tolist(), want.tolist())
     if (got_b < -tol * mscale * 10).any():
         return tag + ": negative Mahalanobis distance"
     if abs(float(model.mahalanobis_distance(mean))) > tol * mscale * 10:
@@ -145,10 +149,16 @@ def check_batch(o):
             forms = [("float32", data.astype(np.float32), 2e-3)]
             if np.array_equal(data, np.round(data)):
                 forms += [("int64", data.astype(np.int64), 1e-9), ("int32", data.astype(np.int32), 1e-9)]
+            # ... and so are the same samples handed over as a LIST of per-sample arrays, each in its own number type (whole-number
+            # samples as integers, one of them first when there is one): the statistics do not depend on the order of the samples
+            whole = [i for i in range(len(data)) if np.array_equal(data[i], np.round(data[i]))]
+            order = whole[:1] + [i for i in range(len(data)) if i not in whole[:1]]
+            forms.append(("a list of per-sample arrays of mixed number types",
+                          [data[i].astype(np.int64) if i in whole else data[i].copy() for i in order], 1e-9))
             for fname, arr2, tol in forms:
                 tag = "%s graph, %s storage, data stored as %s" % (gname, "sparse" if sparse else "dense", fname)
                 try:
-                    m = GMRFVectorModel(arr2.copy(), g, mode=c["mode"], sparse=sparse, bias=c["bias"])
+                    m = GMRFVectorModel(arr2.copy() if isinstance(arr2, np.ndarray) else list(arr2), g, mode=c["mode"], sparse=sparse, bias=c["bias"])
                     r = _check_stats(m, o["stats"], o["queries"], tag, tol, nv, c["E"])
                 except Exception as e:
                     from ..core import from_library
